@@ -85,9 +85,9 @@ pub fn sym_b() -> String { String::new() }
 #[derive(TS)] #[ts(tag = "t-g", content = "c t")] pub enum K5<T> { A(T), #[ts(rename = "b-b")] B { #[ts(rename = "y-y")] y: T } }
 #[derive(TS)] pub struct K6<T> { pub r#type: T, pub r#struct: i32, #[ts(type = "boolean")] pub r#fn: i32 }
 #[derive(TS)] #[ts(tag = "ki-nd")] pub struct K7<T> { #[ts(rename = "va-l")] pub v: T }
-#[derive(TS)] #[doc = "cdoc"] pub struct DD1<T> { #[doc = "da"] #[ts(rename = "a-b")] pub a: T, #[doc = "db"] #[ts(type = "string")] pub b: i32, #[doc = "dc"] #[ts(optional)] pub c: Option<T>, #[doc = "dd"] #[ts(inline)] pub d: Inner<T>, #[doc = "de"] #[ts(flatten)] pub e: Inner<T>, #[doc = "df"] pub r#type: T }
+#[derive(TS)] #[doc = "cdoc"] pub struct DD1<T> { #[doc = "da {0} {{b}}"] #[ts(rename = "a-b")] pub a: T, #[doc = "db"] #[ts(type = "string")] pub b: i32, #[doc = "dc"] #[ts(optional)] pub c: Option<T>, #[doc = "dd"] #[ts(inline)] pub d: Inner<T>, #[doc = "de"] #[ts(flatten)] pub e: Inner<T>, #[doc = "df"] pub r#type: T }
 #[derive(TS)] pub struct DN1<T> { #[ts(rename = "a-b")] pub a: T, #[ts(type = "string")] pub b: i32, #[ts(optional)] pub c: Option<T>, #[ts(inline)] pub d: Inner<T>, #[ts(flatten)] pub e: Inner<T>, pub r#type: T }
-#[derive(TS)] #[doc = "cdoc"] pub enum DD2<T> { #[doc = "va"] A(T), #[doc = "vb"] B { #[doc = "fa"] x: T, #[doc = "fb"] #[ts(rename = "y-y")] y: T }, #[doc = "vc"] C }
+#[derive(TS)] #[doc = "cdoc"] pub enum DD2<T> { #[doc = "va"] A(T), #[doc = "vb"] B { #[doc = "fa {1}"] x: T, #[doc = "fb"] #[ts(rename = "y-y")] y: T }, #[doc = "vc"] C }
 #[derive(TS)] pub enum DN2<T> { A(T), B { x: T, #[ts(rename = "y-y")] y: T }, C }
 #[derive(TS)] #[ts(tag = "t")] #[doc = "cdoc"] pub enum DD3<T> { #[doc = "va"] A { #[doc = "fa"] x: T }, #[doc = "vb"] B }
 #[derive(TS)] #[ts(tag = "t")] pub enum DN3<T> { A { x: T }, B }
@@ -121,3 +121,9 @@ pub fn sym_b() -> String { String::new() }
 #[derive(TS)] #[ts(as = "Option<T>")] pub enum AE1<T> { A(T) }
 #[derive(TS)] #[ts(tag = "t")] pub struct TF1<T> { pub id: bool, #[ts(flatten)] pub s: Inner<T> }
 #[derive(TS)] pub struct GF1<T, U> { #[ts(flatten)] pub a: G2<T, U>, pub z: U }
+#[derive(TS)] #[ts(concrete(E = i32))] pub struct G18<E, T> { pub error: E, pub data: T }
+#[derive(TS)] #[ts(concrete(B = bool))] pub enum G19<A, B, C> { X(A, B, C), Y { b: B, c: C } }
+#[derive(TS)] pub struct OI1<T> { #[ts(optional, inline)] pub a: Option<Inner<T>>, #[ts(optional = nullable, inline)] pub b: Option<Inner<T>>, #[ts(inline)] pub c: Option<Inner<T>> }
+#[derive(TS)] pub struct ON1<T> { #[ts(optional)] pub a: Option<Inner<T>>, #[ts(optional = nullable)] pub b: Option<Inner<T>>, pub c: Option<Inner<T>> }
+#[derive(TS)] #[ts(optional_fields)] pub struct OI2<T: TS> { #[ts(inline)] pub a: Option<Inner<T>>, #[ts(inline)] pub v: Vec<T> }
+#[derive(TS)] #[ts(optional_fields)] pub struct ON2<T: TS> { pub a: Option<Inner<T>>, pub v: Vec<T> }
